@@ -18,6 +18,7 @@ import Dassh.Model.AcceptRegions
 import Dassh.Model.PowerRows
 import Dassh.Model.AcceptFuel
 import Dassh.Model.Assignment
+import Dassh.Model.PowerIntegral
 
 open Dassh.Model
 
@@ -210,6 +211,18 @@ def handle (line : String) : String :=
         | some idx => "ok " ++ showNats idx
         | none => "err")
      | _, _, _ => "bad-op")
+  | "pint" :: rest =>
+    -- pint nTerms | c c c ...   (PowerIntegral.cellAverage; items of nTerms coefficients each)
+    let (hd, body) := splitBar rest
+    match natList hd, floatList body with
+    | some [nTerms], some cs =>
+      if nTerms = 0 then "bad-op" else
+      let rec chunks (fuel : Nat) (l : List Float) : List (List Float) :=
+        match fuel with
+        | 0 => []
+        | fuel + 1 => if l.isEmpty then [] else l.take nTerms :: chunks fuel (l.drop nTerms)
+      "ok " ++ showFloats [PowerIntegral.cellAverage (chunks cs.length cs)]
+    | _, _ => "bad-op"
   | "clamp" :: rest =>
     -- clamp m | lims...   (Orifice.clampGroup)
     let (hd, ls) := splitBar rest
